@@ -44,22 +44,22 @@ Value& SUBRAWExpression::value(Context & ctx) const
     switch (a1.type().major())
     {
     case Type::NO_TYPE:
-      return val;
+      return (val.lvalue() ? ctx.allocate(val.clone()) : val);
     case Type::INTEGER:
       if (a1.isNull())
-        return val;
+        return (val.lvalue() ? ctx.allocate(val.clone()) : val);
       a = *a1.integer();
       break;
     case Type::NUMERIC:
       if (a1.isNull())
-        return val;
+        return (val.lvalue() ? ctx.allocate(val.clone()) : val);
       a = Value::toInteger(*a1.numeric());
       break;
     default:
       throw RuntimeError(EXC_RT_FUNC_ARG_TYPE_S, KEYWORDS[oper]);
     }
     if (val.isNull())
-      return val;
+      return (val.lvalue() ? ctx.allocate(val.clone()) : val);
     int64_t b, c;
     c = val.tabchar()->size();
     b = c;
@@ -69,15 +69,15 @@ Value& SUBRAWExpression::value(Context & ctx) const
       switch (a2.type().major())
       {
       case Type::NO_TYPE:
-        return val;
+        return (val.lvalue() ? ctx.allocate(val.clone()) : val);
       case Type::INTEGER:
         if (a2.isNull())
-          return val;
+          return (val.lvalue() ? ctx.allocate(val.clone()) : val);
         b = *a2.integer();
         break;
       case Type::NUMERIC:
         if (a2.isNull())
-          return val;
+          return (val.lvalue() ? ctx.allocate(val.clone()) : val);
         b = Value::toInteger(*a2.numeric());
         break;
       default:
@@ -85,7 +85,7 @@ Value& SUBRAWExpression::value(Context & ctx) const
       }
     }
     if (c == 0)
-      return val;
+      return (val.lvalue() ? ctx.allocate(val.clone()) : val);
     a = (a < 0 ? a + c : a);
     /* a start before the first or after the last element selects nothing */
     b = (a < 0 || a >= c ? 0L : std::max<int64_t>(std::min(b, c - a), 0L));
@@ -95,7 +95,7 @@ Value& SUBRAWExpression::value(Context & ctx) const
         return ctx.allocate(Value(new TabChar(val.tabchar()->begin() + a, val.tabchar()->begin() + a + b)));
       val.tabchar()->erase(val.tabchar()->begin(), val.tabchar()->begin() + a);
       val.tabchar()->erase(val.tabchar()->begin() + b, val.tabchar()->end());
-      return val;
+      return (val.lvalue() ? ctx.allocate(val.clone()) : val);
     }
     if (val.lvalue())
       return ctx.allocate(Value(new TabChar()));
